@@ -58,6 +58,10 @@ let judge _name ins outs =
   let flags = List.filter is_flag rest in
   let vtoks = List.filter (fun t -> not (is_flag t)) rest in
   if List.mem "ENVFAIL" trtoks || List.mem "ENVFAIL" flags then VDisagree "environment-failure(listen/dial)"
+  else if List.exists (fun t -> String.length t > 1 && t.[0] = 'T' && t.[String.length t - 1] = '!') trtoks then
+    VPropfail ("request_body_delivered",
+               "the origin did not receive the complete byte-identical request body of an exchange whose upload was still in progress when shutdown was requested: "
+               ^ String.concat "_" trtoks)
   else if List.mem "PANIC" flags then VPropfail ("no_panic", "harness recovered a panic")
   else if List.exists (fun f -> String.length f > 6 && String.sub f 0 6 = "PANIC:") flags then
     VPropfail ("no_panic", "the proxy panicked while Close raced accepts: " ^ String.concat " " flags)
